@@ -291,7 +291,7 @@ class Gen:
         else:
             if ref == 'RCur':
                 spelled = rng.choice(['shift', 'at'])
-                arg = ('const', rng.choice([0, 1, 2, 3]))
+                arg = ('const', rng.choice([0, 1, 2, 3] + ([-1, -2, -3] if self.feat['neg_moves'] else [])))
             else:
                 arg = ('const', rng.choice([0, 1, 2, 4, 6, 9]))
             if ints and rng.random() < 0.3:
